@@ -250,3 +250,7 @@ def _selftest_dropped_bits():
 def selftest():
     _selftest_dropped_bits()
     return AR.selftest() + ' ' + DR.selftest()
+
+
+# dimensions added after the fourth and fifth round of seeded changes (DESIGN.md 8.3, 8.4); part of the rule reported in the evidence
+RULE += ' Added with the fourth and fifth round of seeded changes: caller refills the key/window array while holding the result (gen.pure_call refill).'
